@@ -1036,14 +1036,14 @@ package mcp
 // ---------------------------------------------------------------------------------------------
 
 // streamableServerConn.mu guards the routing tables of one session.
-//@ monitor cmu lock streamableServerConn.mu as c [C10, C08, C03]
+//@ monitor cmu lock streamableServerConn.mu as c [C10, C08, C03, C11]
 //@   protects fields(streamableServerConn.streams), fields(streamableServerConn.requestStreams), fields(streamableServerConn.isDone), maps("map[string]*stream"), maps("map[jsonrpc.ID]string")
 //@   unpublished (*StreamableServerTransport).Connect
 //@   invariant @tables-exist c.streams != nil && c.requestStreams != nil
 //@   transition @routes-are-never-overwritten forall id jsonrpc2.ID :: {rawGet(c.requestStreams, id)} old(c.requestStreams) == c.requestStreams && old(inDom(c.requestStreams, id)) && inDom(c.requestStreams, id) ==> rawGet(c.requestStreams, id) == old(rawGet(c.requestStreams, id))
 
 // stream.mu guards the delivery state of one logical stream.
-//@ monitor stmu lock stream.mu as s [C10, C08, C03]
+//@ monitor stmu lock stream.mu as s [C10, C08, C03, C11]
 //@   protects fields(stream.w), fields(stream.done), fields(stream.lastIdx), fields(stream.requests), fields(stream.pendingJSONMessages), fields(stream.protocolVersion), maps("map[jsonrpc.ID]struct{}")
 //@   unpublished (*streamableServerConn).servePOST
 //@   assume s.lastIdx < 4611686018427387904   // fewer than 2^62 events on one stream
@@ -1139,7 +1139,7 @@ package mcp
 //  - (C08) with an event store and a pre-2026-07-28 peer the bytes are appended to the store first and then handed
 //    to deliverLocked - the same bytes, both inside the stream's critical section - with the event id made from the
 //    stream id and the stream's next index; a stream whose last response went out is removed from the table.
-//@ func (*streamableServerConn).Write [C10, C08, C02, C03]
+//@ func (*streamableServerConn).Write [C10, C08, C02, C03, C11]
 //@   track deliverLocked as deliver
 //@   track Append as store
 //@   track formatEventID as eventID
@@ -1158,6 +1158,11 @@ package mcp
 //@   ensures @only-responses-strike-off-requests !typeIs(msg, *jsonrpc2.Response) && calls(deliver) == 1 ==> callArg(deliver, 1, 3).value == nil
 //@   ensures @closed-session-delivers-nothing calls(encode) == 1 && callResult(encode, 1, 1) == nil && at(locked_cmu_1, c.isDone) ==> calls(deliver) == 0 && result != nil
 //@   ensures @delivered-at-most-once calls(deliver) <= 1 && calls(store) <= 1
+// A message that cannot be delivered (no stream for it, stream gone, stateless server asked to call the client, store
+// or exchange failing) is a per-message rejection, never a reason to break the connection: every error except an
+// unencodable message and a closed session wraps ErrRejected. (A connection broken this way ends without
+// ServerSession.Close, so the HTTP handler would go on honouring a session id that no session stands behind.)
+//@   ensures @an-undeliverable-message-is-rejected-not-fatal result != nil && calls(encode) == 1 && callResult(encode, 1, 1) == nil && !at(locked_cmu_1, c.isDone) ==> errIs(result, jsonrpc2.ErrRejected)
 // With an event store and a resumable protocol version, whatever is handed to a stream has been stored first - in
 // every reply mode (in application/json mode the standalone stream is still an SSE stream that clients resume) and
 // whether or not an exchange is attached.
